@@ -45,6 +45,17 @@ THEOREMS = [
     "MysticVerif.C08.powell_bigind_valid",
     "MysticVerif.C08.powell_delta_bigind_spec",
     "MysticVerif.C08.powell_direction_replacement",
+    "MysticVerif.C08.brent_evaluations_logged",
+    "MysticVerif.C08.bracket_terminates",
+    "MysticVerif.C08.bracket_downhill",
+    "MysticVerif.C08.brent_returns_last_lowest",
+    "MysticVerif.C08.linesearch_never_worse_than_start",
+    "MysticVerif.C08.lsOut_never_worse_than_start",
+    "MysticVerif.C08.lsRec_partition",
+    "MysticVerif.C08.powell_with_brent_refines_ref",
+    "MysticVerif.C08.brent_can_return_above_an_evaluated_point",
+    "MysticVerif.C08.bracket_too_many_witness",
+    "MysticVerif.C08.linesearch_mono_fails_with_nan",
 ]
 
 STRATS = ["Best1Exp", "Best1Bin", "Rand1Exp", "Rand1Bin", "RandToBest1Exp", "RandToBest1Bin",
@@ -621,6 +632,25 @@ def gen_powell_case(rng, tier):
         if dim >= 2 and rng.random() < 0.5:
             e = e + (("*", ("c", 0.25), ("sq", ("-", ("x", 0), ("x", 1)))),)
         x0 = [a0 for _ in range(dim)]
+    elif k < 0.46:
+        # small-integer landscapes (every value a small integer): the exact-equality branches of the bookkeeping -
+        # t == 0, tied largest decreases, fx == fx2 - occur in several percent of the sweeps
+        if dim == 1:
+            dim = 2
+        fam = rng.choice(["absrint", "cross", "half", "max", "sq"])
+        cs = [float(rng.randint(-3, 3)) for _ in range(dim)]
+        term = lambda i, sc=1.0: ("rint", ("-", ("x", i), ("c", cs[i]))) if sc == 1.0 else ("rint", ("*", ("c", sc), ("-", ("x", i), ("c", cs[i]))))
+        if fam == "absrint":
+            e = ("sum",) + tuple(("abs", term(i)) for i in range(dim))
+        elif fam == "cross":
+            e = ("sum",) + tuple(("abs", term(i)) for i in range(dim)) + (("abs", ("rint", ("-", ("x", 0), ("x", 1)))),)
+        elif fam == "half":
+            e = ("sum",) + tuple(("abs", term(i, 0.5)) for i in range(dim))
+        elif fam == "max":
+            e = ("sum", ("max", ("abs", term(0)), ("abs", term(1)))) + tuple(("abs", term(i)) for i in range(2, dim))
+        else:
+            e = ("sum",) + tuple(("sq", term(i)) for i in range(dim))
+        x0 = [cs[i] + float(rng.randint(-3, 3)) * (2.0 if fam == "half" else 1.0) for i in range(dim)]
     else:
         e = solvergen.gen_cost(rng, dim, allow_vector=False)[1]
         x0 = [rng.choice([0.0, 1.0, -2.5, rng.uniform(-4, 4), dyadic(rng, -4, 4, 4)]) for _ in range(dim)]
